@@ -99,7 +99,9 @@ def _snake_to_camel(snake_str: str) -> str:
     components = snake_str.split("_")
     # 📝 Capitalize the first letter of all components after the first one
     # and join them together.
-    return components[0] + "".join(x.title() for x in components[1:])
+    return components[0] + "".join(
+        x[:1].upper() + x[1:] for x in components[1:]
+    )
 
 
 # -----------------------------------------------------------------------------
